@@ -1,6 +1,7 @@
 package main
 
 import (
+	"go/types"
 	"fmt"
 	"go/constant"
 	"go/token"
@@ -37,6 +38,32 @@ func checkC16(p *Program, r *Reporter) {
 	ws := p.mustFunc(r, pkgApp, "writeSegment")
 	if srh == nil || start == nil || sms == nil || sm1 == nil || sis == nil || ws == nil {
 		return
+	}
+	// (a0) the instant at which the session generates a segment: a float time converted to whole
+	// milliseconds must be rounded up, or the generator is asked one fraction of a millisecond too early
+	// and the segment is skipped
+	r.Rule("E5-NOTRUNC", "segment availability instants in ms are rounded up, never truncated", 1)
+	if cat := p.mustFunc(r, pkgApp, "calcSegmentAvailabilityTime"); cat != nil {
+		for _, fn := range cluster(cat) {
+			for _, b := range fn.Blocks {
+				for _, in := range b.Instrs {
+					cv, ok := in.(*ssa.Convert)
+					if !ok || !isFloatType(cv.X.Type()) || !isIntegerType(cv.Type()) {
+						continue
+					}
+					okCeil := false
+					if c, isCall := cv.X.(*ssa.Call); isCall && c.Call.StaticCallee() != nil && c.Call.StaticCallee().String() == "math.Ceil" {
+						okCeil = true
+					}
+					// conversions of the configured start time and similar whole-second settings are not instants computed from media time
+					if !okCeil && !valueDependsOnField(p, cv.X, "app.Segment.EndTime") {
+						continue
+					}
+					r.Decide(okCeil, "E5-NOTRUNC", shortFn(fn), "float-to-ms", p.pos(cv.Pos()), "math.Ceil precedes the conversion",
+						"a segment end time is truncated to whole milliseconds: at the computed instant the segment is still 'too early' for the generator, so the session skips it (assets with fractional-millisecond segment ends)", nil)
+				}
+			}
+		}
 	}
 	// (a) typestate
 	r.Rule("E5-HEADERS", "every request the ingester creates passes setReqHeaders before it is sent", 3)
@@ -619,4 +646,14 @@ func nilTestOperands(cd cond) []ssa.Value {
 func isLoopCarried(v ssa.Value) bool {
 	ph, ok := v.(*ssa.Phi)
 	return ok && naturalLoop(ph.Block()) != nil
+}
+
+func isFloatType(t types.Type) bool {
+	b, ok := t.Underlying().(*types.Basic)
+	return ok && b.Info()&types.IsFloat != 0
+}
+
+func isIntegerType(t types.Type) bool {
+	b, ok := t.Underlying().(*types.Basic)
+	return ok && b.Info()&types.IsInteger != 0
 }
